@@ -52,14 +52,15 @@ where
 expansion, one term per ordered monomial, is the operator of the form.  (Partial: the
 real list additionally reduces powers of I, X, Y, Z mod 2 — justified by
 `T15_pauli_power` — and keeps factor-free monomials in `constant`; the complete
-statement is `T15_terms_denote_full`, exercised by the correspondence.) -/
+statement is `T15_terms_denote_full`, proved in C15d.lean as
+`T15_terms_denote_full_proved`.) -/
 theorem T15_terms_denote_partial (f : PForm α) (ψ : Lab → α) (x : Lab) :
     (TermHam.mk ((expand f).map (fun m => STerm.mk m.1 m.2)) 0).applyGates ψ x = f.denote ψ x := by
   rw [T15_apply_gates_sum, ← monosDenote_expand f ψ]
   simp only [zero_mul, add_zero, List.map_map]
   rfl
 
-/-- full statement (not asserted): the model of `SymbolicHamiltonian.terms` built through
+/-- full statement (proved: `T15_terms_denote_full_proved`, C15d.lean): the model of `SymbolicHamiltonian.terms` built through
 `groupPowers` / `STerm.ofRaw` / `TermHam.ofRaw` acts as the operator of the form, provided
 the symbols flagged `pauli` are involutive and `same` identifies equal symbols only. -/
 def T15_terms_denote_full : Prop :=
@@ -68,16 +69,16 @@ def T15_terms_denote_full : Prop :=
     (∀ s : PSym α, s.pauli = true → s.Invol) →
     (TermHam.ofForm same f).applyGates ψ = f.denote ψ
 
-/-- full statement (not asserted; the correspondence compares the real `term.matrix` with
-`STerm.matrix` and checks Σ applyGate (term gate) = h @ ψ on every case): the gate built
+/-- full statement (proved: `T15_term_matrix_full_proved`, C15d.lean; the correspondence also
+compares the real `term.matrix` with `STerm.matrix` on every case): the gate built
 from `SymbolicTerm.matrix` (coefficient · kron over the sorted target qubits of the
 per-qubit products) acts as the term's operator — factors on different qubits commute,
 factors on one qubit keep their order. -/
 def T15_term_matrix_full : Prop :=
   ∀ (t : STerm α) (ψ : Lab → α), applyGate t.gate ψ = t.denote ψ
 
-/-- full statement (not asserted; exercised by the correspondence for n ≤ 5 and by the
-search against the formula for n ≤ 6): the dense TFIM builder and the dense matrix of the
+/-- full statement (proved: `T15_models_tfim_full_proved`, C15d.lean; also exercised by the
+correspondence for n ≤ 5): the dense TFIM builder and the dense matrix of the
 symbolic TFIM form agree for every n ≥ 2 and every field h. -/
 def T15_models_tfim_full {R : Type} [CommRing R] : Prop :=
   ∀ (n : Nat) (h : R) (ψ : Lab → R), 2 ≤ n →
